@@ -830,3 +830,104 @@ Theorem C11_nurimaze_solve_reports : forall oracle, oracle_sound_on oracle -> or
      (List.cons mark (List.cons (List.cons sy (List.cons sx (List.cons gy (List.cons gx nil)))) nil)))))).
 Proof. exact nurimaze_solve_reports. Qed.
 Print Assumptions C11_nurimaze_solve_reports.
+
+(* Tier 1, slalom (solve_slalom, the reference_sol_loop=None form), every board in the puzzle's format and every gate layout /
+   numbering.  problem = [[h; w]; [oy; ox]; black; gates] (5 integers y; x; d; l; n per gate, d 0 = horizontal dotted line,
+   n >= 1 = the gate's number).  Hypothesis slalom_wf (Rules_slalom.v, executable; what instantiate_problem accepts, and a
+   little more): the start and the gates lie on the board, gates are pairwise disjoint and do not contain the start, each
+   end of a gate is the board edge or a black cell.  It cannot be dropped (C11_slalom_wf_needed: the solver does not post
+   "straight through the gate", it relies on the black cells at the gate ends).  The answer is the BoolGridFrame `loop`
+   (n_lattice_edges h w segments between cell centres).  Single loop through property C06 (SlalomCompose.sl_compose: two
+   frames declared before the graph call, the second one - loop_dir - and the later gate_ord / passed variables are
+   existential; the state after the call is closed under later variables by well-formedness).  Soundness: passed = "on the
+   loop", loop_dir orients the loop consistently, gate_ord counts the gates from the start - the domain 0..len(gates) forces
+   the count to start at 0 - so numbered gates sit at their positions in the direction loop_dir encodes; the solver's
+   "auxiliary constraint" (pairwise different gate_ord on passed gate cells) is proved implied.  Completeness: loop_dir /
+   gate_ord are read off the walk of the rule file (SlalomWalk.walk_trail and the sl_F_* facts: the walk lists every cell of the
+   loop exactly once and returns to the start).  Programs of this module contain no native graph operator. *)
+From Cspuz Require Import Puzzle.Rules_slalom Puzzle.Slalom Puzzle.SlalomProofs Puzzle.SlalomWf.
+Theorem C11_slalom_exact : forall h w oy ox black gates st ans,
+  slalom_wf (List.cons (List.cons (Z.of_nat h) (List.cons (Z.of_nat w) nil))
+               (List.cons (List.cons oy (List.cons ox nil)) (List.cons black (List.cons gates nil)))) = true ->
+  solve_slalom_model (List.cons (List.cons (Z.of_nat h) (List.cons (Z.of_nat w) nil))
+                        (List.cons (List.cons oy (List.cons ox nil)) (List.cons black (List.cons gates nil)))) = Ok st ->
+  ((exists en, model_of no_graph en st /\ reads st en (seq 0 (n_lattice_edges h w)) = ans)
+   <-> rules_slalom (List.cons (List.cons (Z.of_nat h) (List.cons (Z.of_nat w) nil))
+                       (List.cons (List.cons oy (List.cons ox nil)) (List.cons black (List.cons gates nil)))) ans = true).
+Proof. exact slalom_exact. Qed.
+Print Assumptions C11_slalom_exact.
+
+(* on a board in the format the model (like the Python) is defined exactly when is_black has an entry for every cell *)
+Theorem C11_slalom_model_defined : forall h w oy ox black gates,
+  slalom_wf (List.cons (List.cons (Z.of_nat h) (List.cons (Z.of_nat w) nil))
+               (List.cons (List.cons oy (List.cons ox nil)) (List.cons black (List.cons gates nil)))) = true ->
+  ((exists st, solve_slalom_model (List.cons (List.cons (Z.of_nat h) (List.cons (Z.of_nat w) nil))
+                 (List.cons (List.cons oy (List.cons ox nil)) (List.cons black (List.cons gates nil)))) = Ok st)
+   <-> (h * w <= length black)%nat).
+Proof. exact slalom_model_defined. Qed.
+Print Assumptions C11_slalom_model_defined.
+
+(* the format hypothesis is needed: 2 x 2 board, start (1, 1), no black cell, a one-cell horizontal gate at (0, 0) with an
+   open end - the posted program accepts the square loop, which turns inside the gate cell *)
+Theorem C11_slalom_wf_needed :
+  let pb := List.cons (List.cons 2%Z (List.cons 2%Z nil))
+              (List.cons (List.cons 1%Z (List.cons 1%Z nil))
+                 (List.cons (List.cons 0%Z (List.cons 0%Z (List.cons 0%Z (List.cons 0%Z nil))))
+                    (List.cons (List.cons 0%Z (List.cons 0%Z (List.cons 0%Z (List.cons 1%Z (List.cons (-1)%Z nil))))) nil))) in
+  exists st en, solve_slalom_model pb = Ok st /\ model_of no_graph en st /\
+                rules_slalom pb (reads st en (seq 0 4)) = false.
+Proof. exact slalom_wf_needed. Qed.
+Print Assumptions C11_slalom_wf_needed.
+
+Theorem C11_slalom_solve_reports : forall oracle, oracle_sound_on oracle -> oracle_complete_on oracle ->
+  forall h w oy ox black gates st,
+  slalom_wf (List.cons (List.cons (Z.of_nat h) (List.cons (Z.of_nat w) nil))
+               (List.cons (List.cons oy (List.cons ox nil)) (List.cons black (List.cons gates nil)))) = true ->
+  solve_slalom_model (List.cons (List.cons (Z.of_nat h) (List.cons (Z.of_nat w) nil))
+                        (List.cons (List.cons oy (List.cons ox nil)) (List.cons black (List.cons gates nil)))) = Ok st ->
+  solve_reports oracle st (seq 0 (n_lattice_edges h w))
+    (rules_slalom (List.cons (List.cons (Z.of_nat h) (List.cons (Z.of_nat w) nil))
+                     (List.cons (List.cons oy (List.cons ox nil)) (List.cons black (List.cons gates nil))))).
+Proof. exact slalom_solve_reports. Qed.
+Print Assumptions C11_slalom_solve_reports.
+(* Tier 1, firefly (Hotaru Beam), every board shape (height, width >= 1 lattice points; the Python and the model raise
+   ValueError on boards with height <= 0 or width <= 0) and every firefly layout WITH AT LEAST ONE FIREFLY (dot side,
+   number or '?'): the program posted by solve_firefly (model Puzzle/Firefly.v, tied to the Python by program capture:
+   has_line = line_ul | line_dr, one ignored segment, ranks descending along the orientation, per-point flow and
+   turn-counter constraints; no helper of cspuz.graph is called) has a model reading as [ans] on has_line exactly when
+   [ans] obeys Rules_firefly.  The module's own "unicyclic = connected" encoding is proved equivalent to the
+   connectivity rule (functional graphs, Puzzle/FireflyFun.v).  On boards without any firefly the statement fails
+   (the program admits every single closed loop, by the rules only the empty drawing is a solution; kernel-checked
+   witness FireflyProofs.firefly_no_firefly_deviation): reported as the class firefly:no-firefly, excluded here by the
+   hypothesis firefly_present. *)
+From Cspuz Require Import Lib.PyErr Puzzle.Rules_firefly Puzzle.Firefly Puzzle.FireflyProofs.
+Theorem C11_firefly_exact : forall h w dir num st ans,
+  firefly_present h w dir = true ->
+  solve_firefly_model (List.cons (List.cons (Z.of_nat h) (List.cons (Z.of_nat w) nil)) (List.cons dir (List.cons num nil))) = Ok st ->
+  ((exists en, model_of no_graph en st /\ reads st en (seq 0 (h * (w - 1) + (h - 1) * w)) = ans)
+   <-> rules_firefly (List.cons (List.cons (Z.of_nat h) (List.cons (Z.of_nat w) nil)) (List.cons dir (List.cons num nil))) ans = true).
+Proof. exact firefly_exact. Qed.
+Print Assumptions C11_firefly_exact.
+
+Theorem C11_firefly_model_defined : forall h w dir num,
+  (exists st, solve_firefly_model (List.cons (List.cons (Z.of_nat h) (List.cons (Z.of_nat w) nil)) (List.cons dir (List.cons num nil))) = Ok st)
+  <-> (1 <= h /\ 1 <= w /\ h * w <= length dir /\ h * w <= length num)%nat.
+Proof. exact firefly_model_defined. Qed.
+Print Assumptions C11_firefly_model_defined.
+
+From Cspuz Require Import Puzzle.FireflyWf.
+Theorem C11_firefly_solve_reports : forall oracle, oracle_sound_on oracle -> oracle_complete_on oracle ->
+  forall h w dir num st,
+  firefly_present h w dir = true ->
+  solve_firefly_model (List.cons (List.cons (Z.of_nat h) (List.cons (Z.of_nat w) nil)) (List.cons dir (List.cons num nil))) = Ok st ->
+  solve_reports oracle st (seq 0 (n_lattice_edges h w)) (rules_firefly (List.cons (List.cons (Z.of_nat h) (List.cons (Z.of_nat w) nil)) (List.cons dir (List.cons num nil)))).
+Proof. exact firefly_solve_reports. Qed.
+Print Assumptions C11_firefly_solve_reports.
+
+From Cspuz Require Import Puzzle.LitsWf.
+Theorem C11_lits_solve_reports : forall oracle, oracle_sound_on oracle -> oracle_complete_on oracle ->
+  forall h w region st,
+  solve_lits_model (List.cons (List.cons (Z.of_nat h) (List.cons (Z.of_nat w) nil)) (List.cons region nil)) = Ok st ->
+  solve_reports oracle st (seq 0 (h * w)) (rules_lits (List.cons (List.cons (Z.of_nat h) (List.cons (Z.of_nat w) nil)) (List.cons region nil))).
+Proof. exact lits_solve_reports. Qed.
+Print Assumptions C11_lits_solve_reports.
